@@ -24,6 +24,7 @@
   static inline T *NAME##__end(const struct NAME *v) { return v->data + v->size; } \
   static inline T *NAME##__data(const struct NAME *v) { return v->data; } \
   static inline void NAME##__push_back(struct NAME *v, const T *x) { if(!v->data) { v->data = (T*)malloc(sizeof(T) * VEC_CAP); v->cap = VEC_CAP; } __CPROVER_assert(v->size < v->cap, "model: std::vector capacity VEC_CAP sufficient"); v->data[v->size] = *x; v->size++; } \
+  static inline void NAME##__insert_range(struct NAME *v, T *pos, const T *first, const T *last) { __CPROVER_assert(pos == v->data + v->size, "model: std::vector::insert(range) is supported at end() only"); for(const T *_p = first; _p != last; ++_p) NAME##__push_back(v, _p); } \
   static inline T *NAME##__emplace_slot(struct NAME *v) { if(!v->data) { v->data = (T*)malloc(sizeof(T) * VEC_CAP); v->cap = VEC_CAP; } __CPROVER_assert(v->size < v->cap, "model: std::vector capacity VEC_CAP sufficient"); __builtin_memset(&v->data[v->size], 0, sizeof(T)); v->size++; return &v->data[v->size - 1]; } \
   static inline void NAME##__resize(struct NAME *v, unsigned long n) { if(!v->data) { v->data = (T*)malloc(sizeof(T) * VEC_CAP); v->cap = VEC_CAP; } __CPROVER_assert(n <= v->cap, "model: std::vector capacity VEC_CAP sufficient"); if(n > v->size) __builtin_memset(&v->data[v->size], 0, (n - v->size) * sizeof(T)); v->size = n; }
 #endif
